@@ -26,6 +26,7 @@ func C19() int {
 		f    Flags
 	}
 	var files [][]byte
+	twinLines := 0
 	for i := 0; i < nfiles; i++ {
 		var buf bytes.Buffer
 		for j, n := 0, 5+i%40; j < n; j++ {
@@ -38,11 +39,37 @@ func C19() int {
 			default:
 				l = g.Case(gen.CaseOpts{}).Line
 			}
-			buf.Write(l.Bytes([]jt.Style{jt.Plain, jt.GoLike, jt.Unicode}[j%3]))
+			st := []jt.Style{jt.Plain, jt.GoLike, jt.Unicode}[j%3]
+			buf.Write(l.Bytes(st))
+			buf.WriteByte('\n')
+			if i%4 == 1 && (i+j)%5 >= 2 {
+				// neighbours that differ only in what gets redacted (their first-pass lines are
+				// byte-identical), and exact repeats: a fixed point must keep every one of them
+				switch j % 3 {
+				case 0:
+					buf.Write(g.Reassign(l, gen.ReassignOpts{Mode: gen.Fresh}).Bytes(st))
+					buf.WriteByte('\n')
+				case 1:
+					buf.Write(l.Bytes(st))
+					buf.WriteByte('\n')
+				}
+				twinLines++
+			}
+		}
+		files = append(files, buf.Bytes())
+	}
+	// the systematic slot × class catalogue (every operator family, large arrays, deep nesting), 40 lines per file
+	cat := g.Catalogue(1)
+	for lo := 0; lo < len(cat); lo += 40 {
+		var buf bytes.Buffer
+		for j := lo; j < lo+40 && j < len(cat); j++ {
+			buf.Write(cat[j].Line.Bytes(jt.Plain))
 			buf.WriteByte('\n')
 		}
 		files = append(files, buf.Bytes())
 	}
+	c.Set("catalogue_lines", len(cat))
+	c.Set("lines_with_a_twin_differing_only_in_redacted_values_or_repeated", twinLines)
 	var jobs []job
 	for i := range files {
 		for m := 0; m < 8; m++ {
@@ -141,7 +168,7 @@ func C19() int {
 			c.Sample(map[string]any{"flags": jb.f.String(), "first_input_line": short(files[jb.file], 300), "first_output_line": short(b1, 300), "second_pass_identical": bytes.Equal(b1, b2)})
 		}
 	})
-	c.Set("files", nfiles)
+	c.Set("files", len(files))
 	c.Assume("replacement text is not itself e-mail-shaped; no --redactNamespaces / --redactFieldNames")
 	return c.Finish("multi-line files mixing grammar command lines, vocabulary soup in zones and other-component soup, under 2^3 of -n -b -i × 5 replacement texts (default, empty, Unicode, quotes/backslash, $-leading); the first pass's output FILE is fed back with the same flags and compared as bytes; distinct by file+flags, non-trivial when the first pass produced output")
 }
